@@ -24,7 +24,7 @@ from common import Coverage, coq_eval, rng, violation
 from ref import srp_ref as R
 
 USER = "Pair-Setup"
-PRE = "From Coq Require Import List NArith ZArith.\nFrom AHK Require Import Model.SrpBig.\nImport ListNotations.\n" \
+PRE = "From Coq Require Import List NArith ZArith.\nFrom AHK Require Import %s.\nImport ListNotations.\n" \
       "Open Scope N_scope.\nSet Printing Depth 1000000.\nSet Printing Width 200.\n"
 
 
@@ -43,8 +43,9 @@ def parse_evals(out: str):
     return res
 
 
-def model_eval(ctx, name, exprs, timeout=1200):
-    body = PRE + "".join(f"Eval vm_compute in ({e}).\n" for e in exprs)
+def model_eval(ctx, name, exprs, timeout=1200, big=False):
+    body = PRE % ("Model.SrpBig" if big else "Model.SrpCases") + "".join(f"Eval vm_compute in ({e}).\n" for e in exprs)
+    name = re.sub(r"[^A-Za-z0-9_]", "_", name)
     out = coq_eval(ctx["verif"], "C02", f"{name}_{os.getpid()}", body, timeout=timeout)
     res = parse_evals(out)
     if len(res) != len(exprs):
@@ -230,7 +231,7 @@ def run_exchange(ctx, case):
     if impl["status"] == "ok":
         exprs.append(f"server_case {lit(USER.encode())} {lit(scode.encode())} {lit(salt)} {b} {lit(impl['A_b'])} {lit(impl['M1'])}")
     t0 = time.time()
-    mres = model_eval(ctx, "ex_" + case["id"], exprs)
+    mres = model_eval(ctx, "ex_" + case["id"], exprs, big=True)
     res["model_s"] = round(time.time() - t0, 1)
     mc = mres[0]
     if mc[0] == [1]:
@@ -388,15 +389,50 @@ def impl_digest(m: bytes, cut: int):
 # ---------------------------------------------------------------- run
 def run(ctx):
     tier, seed = ctx["tier"], ctx["seed"]
-    workers = int(os.environ.get("VERIF_C02_WORKERS", "6" if tier == "quick" else "10"))
+    workers = int(os.environ.get("VERIF_C02_WORKERS", "8" if tier == "quick" else "12"))
     cov = Coverage("exchange: distinct (code, server code, salt, a, b, B_b) for which all three parties produced a result; "
                    "sha512: distinct message; to_byte_array/pad_left: distinct argument tuple")
     viols = []
     import aiohomekit.crypto.srp as srp
     t_start = time.time()
 
+    # ---- inputs of every stream
+    msgs = gen_sha(tier, seed)
+    chunk = 360 if tier == "quick" else 500
+    sha_parts = [msgs[i:i + chunk] for i in range(0, len(msgs), chunk)]
+    r = rng(seed, "c02small")
+    ns = list(range(0, 1030)) + [-1, -255, -256]
+    for kbits in list(range(8, 200, 8)) + [504, 512, 1024, 3064, 3072, 3080]:
+        ns += [(1 << kbits) - 1, 1 << kbits, (1 << kbits) + 1, r.getrandbits(kbits)]
+    pl_cases = []
+    for dl in list(range(0, 20)) + [63, 64, 383, 384, 385]:
+        for ln in sorted({0, 1, 15, 16, 17, 64, 383, 384, 385, dl, max(dl - 1, 0), dl + 1}):
+            data = bytes((r.getrandbits(8) if j else r.choice([0, 0, 1, 255])) for j in range(dl))
+            pl_cases.append((data, ln))
+    if ctx.get("replay"):
+        rp = json.load(open(ctx["replay"]))
+        cases = [rp["case"]] if isinstance(rp.get("case"), dict) and "salt" in rp["case"] else gen_exchanges(tier, seed)
+    else:
+        cases = gen_exchanges(tier, seed)
+    t_gen = time.time()
+
+    # ---- all model evaluations (and, for exchanges, the implementation and oracle runs) on one pool;
+    #      the long jobs (exchanges) are queued first
+    jobs = [(lambda c=c: run_exchange(ctx, c)) for c in cases]
+    jobs += [(lambda i=i, part=part: model_eval(ctx, f"sha_{i}", ["map sha_case [" + "; ".join(lit(m) for m in part) + "]"])[0])
+             for i, part in enumerate(sha_parts)]
+    jobs.append(lambda: model_eval(ctx, "tba", ["map (fun p => to_byte_array_case (fst p) (snd p)) ["
+                                                + "; ".join(f"({'true' if n < 0 else 'false'}, {abs(n)})" for n in ns) + "]"])[0])
+    jobs.append(lambda: model_eval(ctx, "padleft", ["map (fun p => pad_left_case (fst p) (snd p)) ["
+                                                    + "; ".join(f"({lit(d)}, {ln})" for d, ln in pl_cases) + "]"])[0])
+    jobs.append(lambda: model_eval(ctx, "consts", ["constants_case"])[0])
+    out = pool_map(lambda f: f(), jobs, workers)
+    results = out[:len(cases)]
+    sha_model = [d for part in out[len(cases):len(cases) + len(sha_parts)] for d in part]
+    tba_model, pl_model, mc = out[-3], out[-2], out[-1]
+    t_model = time.time()
+
     # ---- constants, read from the implementation at run time
-    mc = model_eval(ctx, "consts", ["constants_case"])[0]
     model_consts = dict(N=int.from_bytes(bytes(mc[0]), "big"), g=int.from_bytes(bytes(mc[1]), "big"),
                         k=int.from_bytes(bytes(mc[2]), "big"), hgroup=bytes(mc[3]), keylen=mc[4][0], saltlen=mc[4][1])
     impl_consts = dict(N=getattr(srp, "MODULUS_VALUE", None), g=getattr(srp, "GENERATOR_VALUE", None),
@@ -418,14 +454,6 @@ def run(ctx):
                                                                      for k, v in vals.items()}))
 
     # ---- SHA-512: model vs hashlib vs the implementation's digest()
-    msgs = gen_sha(tier, seed)
-    chunk = 150
-    parts = [msgs[i:i + chunk] for i in range(0, len(msgs), chunk)]
-
-    def sha_part(ip):
-        i, part = ip
-        return model_eval(ctx, f"sha_{i}", ["map sha_case [" + "; ".join(lit(m) for m in part) + "]"])[0]
-    sha_model = [d for part in pool_map(sha_part, list(enumerate(parts)), workers) for d in part]
     for i, (m, dm) in enumerate(zip(msgs, sha_model)):
         want = hashlib.sha512(m).digest()
         di = impl_digest(m, i)
@@ -439,12 +467,6 @@ def run(ctx):
                  stream="sha512", sha_len=len(m) if len(m) in (0, 111, 112, 127, 128, 239, 240, 255, 256) else f"{len(m) // 128 * 128}+")
 
     # ---- to_byte_array / pad_left
-    r = rng(seed, "c02small")
-    ns = list(range(0, 1030)) + [-1, -255, -256]
-    for kbits in list(range(8, 200, 8)) + [504, 512, 1024, 3064, 3072, 3080]:
-        ns += [(1 << kbits) - 1, 1 << kbits, (1 << kbits) + 1, r.getrandbits(kbits)]
-    tba_model = model_eval(ctx, "tba", ["map (fun p => to_byte_array_case (fst p) (snd p)) ["
-                                        + "; ".join(f"({'true' if n < 0 else 'false'}, {abs(n)})" for n in ns) + "]"])[0]
     for n, mm in zip(ns, tba_model):
         try:
             im = "ok " + bytes(srp.to_byte_array(n)).hex()
@@ -460,13 +482,6 @@ def run(ctx):
             viols.append(violation("to_byte_array:model-mismatch", "model differs from implementation", False, n=str(n), impl=im, model=mo))
         cov.case(f"tba{n}", True, stream="to_byte_array", tba_bytes=(n.bit_length() + 7) // 8 if n >= 0 else "negative",
                  sample=dict(stream="to_byte_array", n=n, impl=im) if n in (0, 255, 256) else None)
-    pl_cases = []
-    for dl in list(range(0, 20)) + [63, 64, 383, 384, 385]:
-        for ln in sorted({0, 1, 15, 16, 17, 64, 383, 384, 385, dl, max(dl - 1, 0), dl + 1}):
-            data = bytes((r.getrandbits(8) if j else r.choice([0, 0, 1, 255])) for j in range(dl))
-            pl_cases.append((data, ln))
-    pl_model = model_eval(ctx, "padleft", ["map (fun p => pad_left_case (fst p) (snd p)) ["
-                                           + "; ".join(f"({lit(d)}, {ln})" for d, ln in pl_cases) + "]"])[0]
     for (d, ln), mm in zip(pl_cases, pl_model):
         try:
             im = "ok " + bytes(srp.pad_left(d, ln)).hex()
@@ -483,13 +498,6 @@ def run(ctx):
         cov.case(f"pl{d.hex()}/{ln}", True, stream="pad_left", pad_result=im.split(" ")[0])
 
     # ---- exchanges
-    if ctx.get("replay"):
-        rp = json.load(open(ctx["replay"]))
-        cases = [rp["case"]] if "case" in rp and isinstance(rp["case"], dict) and "salt" in rp["case"] else gen_exchanges(tier, seed)
-    else:
-        cases = gen_exchanges(tier, seed)
-    t_search = time.time()
-    results = pool_map(lambda c: run_exchange(ctx, c), cases, workers)
     flags = dict(A0=0, B0=0, K0=0, M1_0=0, M2_0=0, salt0=0)
     flips_checked = 0
     for res in results:
@@ -513,7 +521,8 @@ def run(ctx):
     cov.extra["domain"] = ("user name 'Pair-Setup', setup codes as UTF-8 strings, 16-byte salts (any content), a, b < 2^128, B_b = the "
                            "accessory's 384-byte public key; salts of other lengths and foreign B_b only in the model-vs-implementation "
                            "stream (the property does not constrain them)")
-    cov.extra["timing_s"] = dict(small_streams=round(t_search - t_start, 1), exchanges=round(time.time() - t_search, 1))
+    cov.extra["timing_s"] = dict(generation_and_directed_search=round(t_gen - t_start, 1), model_impl_oracle_runs=round(t_model - t_gen, 1),
+                                 comparison=round(time.time() - t_model, 1), workers=workers)
     cov.extra["trusted_base_extra"] = [
         "C02: model evaluated by vm_compute (coqc on generated files), modexp on Bignums.BigN/primitive Uint63 proved equal to the Z model "
         "(srp_big_refines_*; Uint63 axioms of the standard library listed in coq/axioms.d/C02.json)",
